@@ -1,10 +1,12 @@
 //! Generic runtime (C02, C10, C11): drives the real `Runtime<App>` over the real
 //! calendar queue.  Script (see coq/Runtime/Model.v):
-//!   n t start budget  nb {bcall}  K {na {action}}  np {time label}  {sop}
+//!   n t u start budget  nb {bcall}  K {na {action}}  np {time label}  {sop}
 //!     bcall  = 1 n (max_itr) | 2 T (max_time) | 3 tree (limit)
 //!     tree   = 0 | 1 n | 2 T | 3 tree tree (And) | 4 tree tree (Or)
 //!     action = kind x label   (kind 0: add_event_in(label, x ns); else add_event(label, x ns))
 //!     sop    = 1 k (dispatch_n_events) | 2 T (dispatch_events_until) | 3 time label (add_event)
+//! Every time (start, limits, delays, absolute times, step arguments) is given in units of u ns
+//! (u = 0 means 1) and printed divided by u; n, t are plain nanoseconds.
 //! Three runs of the same program are printed one after the other: without a limit
 //! (`run()`), with the configured limit (`run()`), and stepped (`start()`, the schedule,
 //! `dispatch_all()`, `finish()`) with the configured limit.  Records:
@@ -40,12 +42,26 @@ impl Application for App {
     type Lifecycle = ();
 }
 
-fn st(ns: u64) -> SimTime {
-    SimTime::from_duration(Duration::from_nanos(ns))
+/// the script's time unit in ns (set once per script; scripts run one after the other)
+static UNIT: std::sync::atomic::AtomicU64 = std::sync::atomic::AtomicU64::new(1);
+
+fn unit() -> u128 {
+    UNIT.load(std::sync::atomic::Ordering::Relaxed) as u128
 }
 
+/// x units -> Duration (exact, also beyond 2^64 ns)
+fn dur(x: u64) -> Duration {
+    let ns = x as u128 * unit();
+    Duration::new((ns / 1_000_000_000) as u64, (ns % 1_000_000_000) as u32)
+}
+
+fn st(x: u64) -> SimTime {
+    SimTime::from_duration(dur(x))
+}
+
+/// SimTime -> units
 fn ns(t: SimTime) -> u64 {
-    t.as_nanos() as u64
+    (t.as_nanos() / unit()) as u64
 }
 
 /// `add_event` under catch_unwind, recorded in `app.adds`
@@ -69,7 +85,7 @@ impl Event<App> for Ev {
             rt.app.budget -= 1;
             if kind == 0 {
                 let ok = catch_unwind(AssertUnwindSafe(|| {
-                    rt.add_event_in(Ev { label }, Duration::from_nanos(x))
+                    rt.add_event_in(Ev { label }, dur(x))
                 }))
                 .is_ok();
                 rt.app.adds.push((now + x, label, now, ctx, ok));
@@ -180,10 +196,11 @@ fn pre_adds(rt: &mut Runtime<App>, sc: &Script, out: &mut Vec<u64>) {
 }
 
 fn run_line(nums: &[u64]) -> Vec<u64> {
-    if nums.len() < 2 || nums[0] == 0 || nums[1] == 0 {
+    if nums.len() < 3 || nums[0] == 0 || nums[1] == 0 {
         return vec![7];
     }
-    let mut c = Cur::new(&nums[2..]);
+    UNIT.store(if nums[2] == 0 { 1 } else { nums[2] }, std::sync::atomic::Ordering::Relaxed);
+    let mut c = Cur::new(&nums[3..]);
     let start = c.next();
     let budget = c.next();
     let calls = dec_counted(&mut c, |c| match c.next() {
